@@ -9,9 +9,11 @@ git -C /repo apply "$D/patch.diff" || { echo "patch does not apply"; exit 2; }
 trap 'git -C /repo checkout -- .' EXIT
 for id in "$@"; do
   [ -d /verif/replays/$id ] && mv /verif/replays/$id /verif/replays/$id.seedrun.keep
+  [ -f /verif/evidence/$id.json ] && cp /verif/evidence/$id.json /tmp/seedrun.evidence.$id.json   # evidence of the unchanged tree must not be replaced by a run against a seeded change
   tmp=$(mktemp); VERIF_SEED=${VERIF_SEED:-$RANDOM} ./check $id $tier >"$tmp" 2>&1; rc=$?
   echo "$id rc=$rc $(grep -E '^  signature' "$tmp" | head -4 | tr '\n' ';' | cut -c1-400)"
   grep -E "^$id (quick|thorough)" "$tmp" | cut -c1-200
   python3 tools/seed_record.py "$D" "$id" "$tier" "$rc" "$tmp"; rm -f "$tmp"
+  [ -f /tmp/seedrun.evidence.$id.json ] && mv /tmp/seedrun.evidence.$id.json /verif/evidence/$id.json
   rm -rf /verif/replays/$id; [ -d /verif/replays/$id.seedrun.keep ] && mv /verif/replays/$id.seedrun.keep /verif/replays/$id
 done
